@@ -74,6 +74,10 @@ def corpus():
         "sy|x=int:menu_items=*int:menu=int,x=int:menu_items=*int:menu=int,x=int:menu=*int:n=*int|li 0 menu_items 1 menu_items 1;"
         "li 0 menu 1 menu 1;li 0 menu_items 2 menu 0;mu 0 menu_items ap 1;mu 1 menu_items ex [2,3];as 0 menu 5;"
         "mu 0 menu_items ss N N 2 [8,9];mu 2 menu ap 4",
+        # List traits whose CTrait-level default-value type is not `trait_list_object` although they are List traits
+        # (`_l_default` method on the class / only on a subclass), linked with static ones
+        "sy|x=int:l=*int+dm:m=*int,x=int:l=*int+ds:m=*int+so,x=int:l=*int+sub|li 0 l 1 l 1;mu 0 l ap 3;mu 1 l ds N N 2;"
+        "li 2 l 0 l 1;mu 2 l ex [8,9];li 1 m 0 m 0;mu 1 m ap 7;mu 0 l rm 9",
         # stale items handler after the partner died: later links still propagate
         "sy|int:int:int:int,int:int:int:int,int:int:int:int,int:int:int:int|li 0 l 1 l 0;ki 1;li 0 l 2 x 0;li 0 l 3 l 0;mu 0 l ap 1",
     ]
@@ -206,7 +210,7 @@ def _show_obj(o, rec, spec):
     if o is None:
         return "dead"
     if o is UNBORN:
-        st = {n: ([] if il else ("0" if k == "str" else 0)) for n, il, k in spec}
+        st = {d[0]: L.default_of(d) for d in spec}
         cnt = "0" * (len(spec) + len(L.lists(spec)))
         lk = []
     else:
